@@ -128,42 +128,42 @@ def sys_module():
         tys = _cap_types(n, capargs, params)
         caps.append('pub uninterp spec fn %s_ok(%s) -> bool;' % (n, ', '.join('a%d: %s' % (i, t) for i, t in enumerate(tys))))
         L.append('    #[verifier::external_body] pub fn %s(%s, Tracked(hs): Tracked<&mut Host>) -> (r: %s)' % (n, params, ret))
-        L.append('        requires %s_ok(%s), // [%s]' % (n, capargs, n))
+        L.append('        requires %s_ok(%s), // [C05.hostcall.%s] only the call the request prescribes, with exactly its arguments' % (n, capargs, n))
         L.append('        ensures step(*old(hs), *final(hs), %d, r as int), final(hs).pending == old(hs).pending' % nr)
         L.append('    { unimplemented!() }')
     for (n, params, ret, nr, capargs, size) in BUFCALLS:
         tys = _cap_types(n, capargs, params)
         caps.append('pub uninterp spec fn %s_ok(%s) -> bool;' % (n, ', '.join('a%d: %s' % (i, t) for i, t in enumerate(tys))))
         L.append('    #[verifier::external_body] pub fn %s(%s, Tracked(hs): Tracked<&mut Host>) -> (r: %s)' % (n, params, ret))
-        L.append('        requires %s_ok(%s), // [%s]' % (n, capargs, n))
+        L.append('        requires %s_ok(%s), // [C05.hostcall.%s] only the call the request prescribes, with exactly its arguments' % (n, capargs, n))
         L.append('        ensures step(*old(hs), *final(hs), %d, r as int), r >= 0 ==> final(hs).pending.len() == r && r <= %s, final(buf)@ == old(buf)@' % (nr, size))
         L.append('    { unimplemented!() }')
     L.append(r'''    // fstatvfs64(fd, &mut out): on success the cell holds what the kernel reports for the file system of fd
     #[verifier::external_body] pub fn fstatvfs64(fd: i32, buf: &mut MaybeUninit<statvfs64>, Tracked(hs): Tracked<&mut Host>) -> (r: i32)
-        requires fstatvfs64_ok(fd), // [fstatvfs64]
+        requires fstatvfs64_ok(fd), // [C05.hostcall.fstatvfs64]
         ensures step(*old(hs), *final(hs), 8, r as int), final(hs).pending == old(hs).pending, r == 0 ==> final(buf).val() == res_statvfs(fd)
     { unimplemented!() }
     // fcntl(fd, F_SETFL, flags): applies the request's status flags to the descriptor; not one of the request's pinned calls
     #[verifier::external_body] pub fn fcntl(fd: i32, cmd: i32, arg: u32, Tracked(hs): Tracked<&mut Host>) -> (r: i32)
-        requires fcntl_ok(fd, cmd, arg), // [fcntl]
+        requires fcntl_ok(fd, cmd, arg), // [C05.hostcall.fcntl]
         ensures quiet(*old(hs), *final(hs), r >= 0)
     { unimplemented!() }
     // openat without a mode (open(2): the mode argument is only used with O_CREAT / O_TMPFILE)
     #[verifier::external_body] pub fn openat3(dirfd: i32, path: *const i8, flags: i32, Tracked(hs): Tracked<&mut Host>) -> (r: i32)
-        requires openat3_ok(dirfd, cstr_at(path), flags, old(hs).euid, old(hs).egid), // [openat3]
+        requires openat3_ok(dirfd, cstr_at(path), flags, old(hs).euid, old(hs).egid), // [C05.hostcall.openat3]
         ensures step(*old(hs), *final(hs), 27, r as int), final(hs).pending == old(hs).pending
     { unimplemented!() }
     // setresuid(-1, e, -1) / setresgid(-1, e, -1) through syscall(2) (per-thread): only the effective id may be named; on success it is e.
     // Going back to 0 cannot fail (M2).  Not counted among the request's pinned calls.
     #[verifier::external_body] pub fn setresuid(ruid: i32, euid: u32, suid: i32, Tracked(hs): Tracked<&mut Host>) -> (r: i64)
         requires ruid == -1 && suid == -1, // [C05.creds.effective_only] real and saved ids are never touched
-                 setresuid_ok(euid), // [setres]
+                 setresuid_ok(euid), // [C05.hostcall.setresuid]
         ensures r == 0 || r == -1, r == 0 ==> final(hs).euid == euid && final(hs).errno == old(hs).errno, r != 0 ==> final(hs).euid == old(hs).euid,
                 euid == 0 ==> r == 0, final(hs).egid == old(hs).egid, final(hs).fsetid == old(hs).fsetid, final(hs).rets == old(hs).rets, final(hs).pending == old(hs).pending
     { unimplemented!() }
     #[verifier::external_body] pub fn setresgid(rgid: i32, egid: u32, sgid: i32, Tracked(hs): Tracked<&mut Host>) -> (r: i64)
         requires rgid == -1 && sgid == -1, // [C05.creds.effective_only]
-                 setresgid_ok(egid), // [setres]
+                 setresgid_ok(egid), // [C05.hostcall.setresgid]
         ensures r == 0 || r == -1, r == 0 ==> final(hs).egid == egid && final(hs).errno == old(hs).errno, r != 0 ==> final(hs).egid == old(hs).egid,
                 egid == 0 ==> r == 0, final(hs).euid == old(hs).euid, final(hs).fsetid == old(hs).fsetid, final(hs).rets == old(hs).rets, final(hs).pending == old(hs).pending
     { unimplemented!() }
@@ -282,14 +282,14 @@ pub uninterp spec fn host_write_ok(fd: i32, count: usize, off: u64) -> bool;
 pub uninterp spec fn res_stream(nr: int, fd: i32, count: usize, off: u64) -> io::Result<usize>;
 pub trait ZeroCopyWriter {
     fn write_from(&mut self, f: &mut File, count: usize, off: u64, Tracked(hs): Tracked<&mut Host>) -> (r: io::Result<usize>)
-        requires host_read_ok(old(f).sfd(), count, off), // [hostread]
+        requires host_read_ok(old(f).sfd(), count, off), // [C05.hostcall.pread]
         ensures r == res_stream(30, old(f).sfd(), count, off), same_creds(*old(hs), *final(hs)),
                 final(hs).rets == old(hs).rets.push(Ret { nr: 30, ret: if r is Ok { 0int } else { -1int }, errno: final(hs).errno }),
     ;
 }
 pub trait ZeroCopyReader {
     fn read_to(&mut self, f: &mut File, count: usize, off: u64, Tracked(hs): Tracked<&mut Host>) -> (r: io::Result<usize>)
-        requires host_write_ok(old(f).sfd(), count, off), // [hostwrite]
+        requires host_write_ok(old(f).sfd(), count, off), // [C05.hostcall.pwrite]
         ensures r == res_stream(31, old(f).sfd(), count, off), same_creds(*old(hs), *final(hs)),
                 final(hs).rets == old(hs).rets.push(Ret { nr: 31, ret: if r is Ok { 0int } else { -1int }, errno: final(hs).errno }),
     ;
@@ -310,7 +310,7 @@ impl InodeData {
     { unimplemented!() }
     // InodeHandle::open_file: reopen_fd_through_proc(fd, flags) or open_by_handle_at(.., flags)
     #[verifier::external_body] pub fn open_file(&self, flags: i32, proc_self_fd: &File, Tracked(hs): Tracked<&mut Host>) -> (r: io::Result<File>)
-        requires reopen_ok(self.inode, self.mode, flags), // [reopen]
+        requires reopen_ok(self.inode, self.mode, flags), // [C05.hostcall.reopen] re-open for I/O: only the inode and flag word the request prescribes
                  self.by_handle ==> old(hs).euid == 0, // [C05.creds.reopen_privileged] an inode kept as a file handle can only be re-opened with the server's own privileges
         ensures r is Ok ==> r->Ok_0.sfd() == reopen_fd(self.inode, flags), quiet(*old(hs), *final(hs), r is Ok)
     { unimplemented!() }
@@ -347,7 +347,7 @@ impl<S: BitmapSlice + Send + Sync> PassthroughFs<S> {
     pub uninterp spec fn do_lookup_ok(&self, parent: Inode, name: Seq<u8>) -> bool;
     pub uninterp spec fn res_do_lookup(&self, parent: Inode, name: Seq<u8>) -> io::Result<Entry>;
     #[verifier::external_body] fn do_lookup(&self, parent: Inode, name: &CStr) -> (r: io::Result<Entry>)
-        requires self.do_lookup_ok(parent, name@), // [lookup]
+        requires self.do_lookup_ok(parent, name@), // [C05.hostcall.lookup]
         ensures r == self.res_do_lookup(parent, name@) { unimplemented!() }
     pub uninterp spec fn res_do_getattr(&self, inode: Inode, handle: Option<Handle>) -> io::Result<(stat64, Duration)>;
     #[verifier::external_body] fn do_getattr(&self, inode: Inode, handle: Option<Handle>) -> (r: io::Result<(stat64, Duration)>)
@@ -368,7 +368,7 @@ pub mod caps {
         ensures *final(hs) == *old(hs), r is Ok ==> r->Ok_0 == old(hs).fsetid { unimplemented!() }
     #[verifier::external_body] pub fn drop(tid: Option<i32>, s: CapSet, c: Capability, Tracked(hs): Tracked<&mut Host>) -> (r: core::result::Result<(), CapsError>)
         requires tid is None && s is Effective, // [C05.caps.thread_effective_only]
-                 caps_ok(true), // [caps]
+                 caps_ok(true), // [C05.hostcall.caps_drop]
         ensures final(hs).euid == old(hs).euid, final(hs).egid == old(hs).egid, final(hs).rets == old(hs).rets, final(hs).pending == old(hs).pending,
                 r is Ok ==> !final(hs).fsetid, r is Err ==> final(hs).fsetid == old(hs).fsetid { unimplemented!() }
     // raising a capability that is in the permitted set cannot fail (capset(2)); CAP_FSETID was in the effective set, hence is permitted
@@ -506,11 +506,13 @@ def unit(root='/repo'):
         Copy(FSMOD, r'pub struct Entry\b', prefix='#[derive(Clone, Copy)]'),
         Copy(FSMOD, r'pub enum GetxattrReply\b'),
         Copy(FSMOD, r'pub enum ListxattrReply\b'),
+        Copy('src/api/vfs/mod.rs', r'pub const SLASH_ASCII\b'),
     ] + flagsmodel.items(root, ABI, 'SetattrValid') + flagsmodel.items(root, ABI, 'OpenOptions') + [
         Raw(PRE),
         Fn(UTIL, None, 'ebadf', ensures=['r.os_code() == Some(9i32)'], props=['C05']),
         Fn(UTIL, None, 'eperm', ensures=['r.os_code() == Some(1i32)'], props=['C05']),
         Fn(UTIL, None, 'enosys', ensures=['r.os_code() == Some(38i32)'], props=['C05']),
+        Fn(UTIL, None, 'einval', ensures=['r.os_code() == Some(22i32)'], props=['C05']),
         Fn(UTIL, None, 'is_safe_inode', ensures=['r == (mode & 0o170000u32 == 0o100000u32 || mode & 0o170000u32 == 0o040000u32)'], props=['C05']),
     ]
     # ------------------------------------------------------------------------------------------------ namespace operations
@@ -681,9 +683,12 @@ def unit(root='/repo'):
                    SAMEREST, 'res is Ok ==> final(hs).errno == old(hs).errno']),
     ]
 
+    BITCOMM = 'proof { assert(forall|a: u32, b: u32| #[trigger] (a & b) == b & a) by (bit_vector); }      // `&` commutes: the spelling of a mask does not matter'
+
     def creating(op, nr, call, ok_cond):
         return dict(requires=[S, ROOT, 'self.do_lookup_ok(parent, name@)'] + SETRES('ctx.uid', 'ctx.gid', op) + [call],
-                    ensures=one(op, nr) + [reply(op, ok_cond, 'res == self.res_do_lookup(parent, name@)') + ' the entry the lookup of the new name yields'], canary=True)
+                    ensures=one(op, nr) + [reply(op, ok_cond, 'res == self.res_do_lookup(parent, name@)') + ' the entry the lookup of the new name yields'], canary=True,
+                    splices=[('^', 'after', BITCOMM)])
     FS_CREATING = [
         F(PTS, FSIMPL, 'mkdir', **creating('mkdir', NR['mkdirat'], 'mkdirat_ok(ino_fd(parent), name@, mode & !umask, ctx.uid, ctx.gid) // [C05.mkdir.call] mkdirat(parent fd, name, mode & !umask) under the caller\'s ids', '>= 0')),
         F(PTS, FSIMPL, 'mknod', **creating('mknod', NR['mknodat'], 'mknodat_ok(ino_fd(parent), name@, mode & !umask, rdev as u64, ctx.uid, ctx.gid) // [C05.mknod.call] mknodat(parent fd, name, mode & !umask, rdev) under the caller\'s ids', '>= 0')),
@@ -745,16 +750,24 @@ def unit(root='/repo'):
                ensures=['%s <= 1 && (%s == 1 ==> %s.nr == 26) // [C05.create.once]' % (N, N, R0), '%s == 0 ==> res is Err // [C05.create.performed]' % N,
                         '%s == 1 && %s.ret < 0 && !(%s.errno == 17 && self.wb_flags(args.flags as i32) & 0o200i32 == 0) ==> failed_with(res, %s) // [C05.create.errno] a failing creating open is answered with its errno (EEXIST without O_EXCL falls back to opening the existing file)' % (N, R0, R0, R0),
                         'res is Ok ==> self.res_do_lookup(parent, name@) is Ok && res->Ok_0.0 == self.res_do_lookup(parent, name@)->Ok_0 // [C05.create.reply] the entry is the lookup of the name',
-                        '%s // [C05.create.creds_kept]' % CREDS_KEPT])
+                        '%s // [C05.create.creds_kept]' % CREDS_KEPT],
+               splices=[('^', 'after', BITCOMM)])
     ACCESS = F(PTS, FSIMPL, 'access', canary=True,
                requires=[ROOT],
                ensures=['res is Ok ==> res_fstat(ino_fd(inode)) is Ok && access_grants(res_fstat(ino_fd(inode))->Ok_0, ctx.uid, ctx.gid, mask) // [C05.access.granted] granted only by the class rules applied to the fstat of the inode',
                         'final(hs).rets == old(hs).rets', CREDS_KEPT])
-    FS_FNS = FS_FNS + [SETATTR, CREATE, ACCESS]
+    LOOKUP = F(PTS, FSIMPL, 'lookup', tok=False, canary=True,
+               requires=['!has_slash(name@) ==> self.do_lookup_ok(parent, name@)'],
+               ensures=['!has_slash(name@) ==> res == self.res_do_lookup(parent, name@) // [C05.lookup.reply] the lookup chain (O_PATH | O_NOFOLLOW open + statx, unit ptlookup) of exactly this name under this parent',
+                        'has_slash(name@) ==> is_einval(res)'],
+               splices=[('^', 'after', 'proof { lemma_contains_push(name@, 47u8, 0u8); }')])
+    GETATTR = F(PTS, FSIMPL, 'getattr', tok=False, canary=True, sig_subst=[('io::Result<(libc::stat64, Duration)>', 'io::Result<(stat64, Duration)>')],
+                ensures=['res == self.res_do_getattr(inode, handle) // [C05.getattr.reply]'])
+    FS_FNS = FS_FNS + [SETATTR, CREATE, ACCESS, LOOKUP, GETATTR]
     items += [Raw(SPEC_SETATTR), Copy(PTS, r'enum Data\b')] + CREATE_PARTS + [G_CREATE]
     items += [Raw('pub open spec fn safe_mode(mode: u32) -> bool { mode & 0o170000u32 == 0o100000u32 || mode & 0o170000u32 == 0o040000u32 }   // S_IFREG or S_IFDIR (stat(2)); as in unit pt\n'),
               G_HELP] + G_UTIL + [Group(IMPL + ' { // trait FileSystem', FS_FNS)]
     u = Unit('ptops', items, preludes=['base.rs', 'stdmodel.rs', 'names.rs'],
-             generic_tags=dict((n, ['C05']) for n in list(NR.keys()) + ['setres', 'caps', 'reopen', 'lookup', 'hostread', 'hostwrite']))
+             generic_tags={})
     u.prelude_subst = [LIBC_EXTRA]
     return u
